@@ -13,6 +13,7 @@ From AV Require Import Base.Bytes Base.Outcome Hash.HashModel Tree.Heap Tree.Ops
 From AV Require Import Tree.Sort Tree.SortProofsHeap Tree.SortProofsOrder Tree.SortProofsMain Tree.Copy Tree.Compat Tree.Load Tree.Script2
   Tree.InvProofsOp2.
 From AV Require Tree.Index.
+From AV Require Tree.CopyProofsBridge Tree.CopyProofsDup.
 Open Scope string_scope.
 Open Scope list_scope.
 Open Scope N_scope.
@@ -208,8 +209,8 @@ Proof.
     apply wbind_inv in H as [(x & w1 & H1 & H) | (e0 & H1 & _)]; [|apply get_model_inv in H1 as (? & _ & [=] & _)].
     apply get_model_inv in H1 as (x' & Hx & [= <-] & ->).
     apply wbind_inv in H as [([loc files] & w1 & H1 & H) | (e0 & H1 & _)].
-    2:{ assert (w' = w) as -> by (refine ((_ : ro (file_membership (m_root x))) _ _ _ H1); ro_tac). auto. }
-    assert (w1 = w) as -> by (refine ((_ : ro (file_membership (m_root x))) _ _ _ H1); ro_tac).
+    2:{ assert (w' = w) as -> by (apply (ro_file_membership (m_root x) _ _ _ H1)). auto. }
+    assert (w1 = w) as -> by (apply (ro_file_membership (m_root x) _ _ _ H1)).
     destruct (negb (set_mem f files)); [apply wfail_inv in H as (_ & ->); auto|].
     apply wbind_inv in H as [(fname & w1 & H2 & H) | (e0 & H2 & _)]; [|apply wlift_inv in H2 as (? & _ & [=] & _)].
     apply wlift_inv in H2 as (a & _ & _ & ->).
@@ -254,3 +255,144 @@ Theorem reachable2_owned l w' : steps_ok2 l empty_world = true -> run_ops2 l emp
 Proof. apply inv_histories2_owned; [apply empty_treeinv | apply empty_filesinv | apply empty_owned]. Qed.
 
 End Op2.
+
+(* ====================================================================== duplicate, as far as it goes *)
+(* everything allocated before is untouched: the invariant of an old model carries over *)
+Lemma old_part_inv T w w' x : Core w -> (forall i, i < w_next w -> w_nodes w' i = w_nodes w i) ->
+  In x (w_models w) -> FilesInvM T w x -> FilesInvM T w' x.
+Proof.
+  intros C Old Hx [A B S D].
+  assert (forall i, allocated w i -> w_nodes w' i = w_nodes w i) as OldA by (intros i Ha; apply Old; apply (c_alloc _ C); exact Ha).
+  assert (forall i, Reach w' (m_root x) i -> Reach w (m_root x) i) as R1.
+  { intros i H. induction H as [_|p c Hp IH (pn' & Hpn' & Hc)].
+    - constructor. destruct (root_node _ _ C Hx) as (rn & k & Hrn & _). exists rn; auto.
+    - eapply R_kid; eauto. rewrite (OldA p (reach_alloc _ _ _ C IH)) in Hpn'. exists pn'; auto. }
+  assert (forall i, Reach w (m_root x) i -> Reach w' (m_root x) i) as R2.
+  { intros i H. induction H as [(n & Hn)|p c Hp IH (pn & Hpn & Hc)].
+    - constructor. exists n. rewrite OldA; auto. exists n; auto.
+    - eapply R_kid; eauto. exists pn. split; auto. rewrite OldA; auto. exists pn; auto. }
+  assert (forall i s, Eff w i s -> Eff w' i s) as E2.
+  { intros i s H. induction H as [i n Hn Hf | i n p s Hn Hf Hp He IH].
+    - constructor; auto. rewrite OldA; auto. exists n; auto.
+    - eapply Eff_up; eauto. rewrite OldA; auto. exists n; auto. }
+  constructor.
+  - intros i n' Hr Hn'. pose proof (R1 i Hr) as Hr0. rewrite (OldA i (reach_alloc _ _ _ C Hr0)) in Hn'. eapply A; eauto.
+  - intros i n' p Hr Hn' Hne Hp. pose proof (R1 i Hr) as Hr0. rewrite (OldA i (reach_alloc _ _ _ C Hr0)) in Hn'.
+    destruct (B i n' p Hr0 Hn' Hne Hp) as (s & Hs & Hi). exists s. split; [apply E2; exact Hs|exact Hi].
+  - intros i n' p pn' Hr Hn' Hne Hp Hpn'. pose proof (R1 i Hr) as Hr0. rewrite (OldA i (reach_alloc _ _ _ C Hr0)) in Hn'.
+    assert (par w i p) as Hpar by (exists n'; auto).
+    destruct (reach_par _ _ _ _ C Hx Hr0 Hpar) as (Hrp & _).
+    rewrite (OldA p (reach_alloc _ _ _ C Hrp)) in Hpn'. apply (S i n' p pn' Hr0 Hn' Hne Hp Hpn').
+  - intros Hne i Hr. destruct (D Hne i (R1 i Hr)) as (s & Hs). exists s. auto.
+Qed.
+
+(* computations that keep Core and FilesOwned *)
+Definition fo {A} (c : W A) : Prop :=
+  forall w r w', c w = Val (r, w') -> Core w -> FilesOwned w -> Core w' /\ FilesOwned w'.
+
+Lemma fo_cp {A} (c : W A) : cp c -> fo c.
+Proof. intros H w r w' E C O. destruct (H _ _ _ E C) as (C' & P). split; auto. eapply owned_posrel; eauto. Qed.
+Lemma fo_ro {A} (c : W A) : ro c -> fo c.
+Proof. intros R. apply fo_cp, cp_ro, R. Qed.
+Lemma fo_bind {A B} (c : W A) (k : A -> W B) : fo c -> (forall a, fo (k a)) -> fo (wbind c k).
+Proof.
+  intros Hc Hk w r w' H C O. apply wbind_inv in H as [(a & w1 & H1 & H2) | (e & H1 & _)].
+  - destruct (Hc _ _ _ H1 C O) as (C1 & O1). eapply Hk; eauto.
+  - eapply Hc; eauto.
+Qed.
+Lemma cp_corep_ff {A} (c : W A) : CoreP c -> ff c -> cp c.
+Proof.
+  intros P F w r w' H C. pose proof (P _ _ _ H C) as C'. split; auto.
+  destruct (F _ _ _ (core_fresh _ C) H) as (Fr & _). apply frame_pos; auto.
+Qed.
+
+Section Dup.
+Variable T : tables.
+Variable tab_el tab_en : nametab.
+Variable check_fn : N -> list N -> res bool.
+Variable LATEST : N.
+Variable root_attrs : list (N * cdata).
+
+Lemma fo_create_file c name version : fo (m_create_file T c name version).
+Proof.
+  intros w r w' H C O. split; [|eapply owned_create_file; eauto].
+  apply (Core_step T tab_el tab_en check_fn LATEST root_attrs (OpCreateFile c name version) w
+           (match r with OK f => OK (VFile f) | ER e => ER e end) w' C).
+  unfold Inv.run. cbn [run_op]. unfold wbind, wret. cbv beta. rewrite H. destruct r; reflexivity.
+Qed.
+
+Lemma fo_set_standalone nf sa {B} (k : W B) : fo k ->
+  fo (wbind (get_file nf) (fun nfl => wbind (set_file nf (set_standalone nfl sa)) (fun _ => k))).
+Proof.
+  intros Hk w r w' H C O. apply wbind_inv in H as [(nfl & w1 & H1 & H) | (e0 & H1 & _)]; [|apply get_file_inv in H1 as (? & _ & [=] & _)].
+  apply get_file_inv in H1 as (x' & Hx & [= <-] & ->).
+  apply wbind_inv in H as [(u & w1 & H1 & H) | (e0 & H1 & _)]; [|unfold set_file in H1; discriminate].
+  pose proof (stp_set_file _ _ _ _ _ H1) as ST. unfold set_file in H1. injection H1 as _ <-.
+  eapply Hk; [exact H|eapply Core_same_tree; eauto|].
+  intros m0 x0 f0 Hx0 Hf0. unfold model_b in Hx0. cbn in Hx0 |- *.
+  destruct (O m0 x0 f0 Hx0 Hf0) as (fl & Hfl & Hm).
+  rewrite nth_opt_error, nth_error_list_set. rewrite nth_opt_error in Hfl, Hx.
+  destruct (Nat.eqb (N.to_nat f0) (N.to_nat nf)) eqn:E.
+  - apply Nat.eqb_eq in E. rewrite E in *. rewrite Hfl. eexists. split; [reflexivity|]. cbn. congruence.
+  - exists fl. auto.
+Qed.
+
+Lemma fo_dup_files c : forall files fm, fo (dup_files T c files fm).
+Proof.
+  induction files as [|f rest IH]; intros fm; cbn [dup_files]; [apply fo_ro; ro_tac|].
+  apply fo_bind; [apply fo_ro; ro_tac|]. intros fl.
+  apply fo_bind; [apply fo_create_file|]. intros nf.
+  apply fo_set_standalone. apply IH.
+Qed.
+
+Lemma cp_dup_children croot : forall items, cp (dup_children T LATEST croot items).
+Proof.
+  induction items as [|[e|d] rest IH]; cbn [dup_children]; [apply cp_ro; ro_tac| |exact IH].
+  apply cp_bind; [|intros _; exact IH].
+  apply cp_corep_ff; [apply (CoreP_e_copied T check_fn) | apply ff_e_create_copied].
+Qed.
+
+Lemma cp_dup_membership fm : forall oids cids, cp (dup_membership fm oids cids).
+Proof.
+  induction oids as [|o orest IH]; intros [|c crest]; cbn [dup_membership]; try solve [apply cp_ro; ro_tac].
+  apply cp_bind; [apply cp_ro; ro_tac|]. intros on. apply cp_bind; [apply cp_ro; ro_tac|]. intros w0.
+  apply cp_bind; [apply cp_modify_files; intros n; split; reflexivity|]. intros _. apply IH.
+Qed.
+
+Lemma fo_duplicate_body m : fo (m_duplicate_body T LATEST root_attrs m).
+Proof.
+  unfold m_duplicate_body.
+  apply fo_bind; [apply fo_ro; ro_tac|]. intros x.
+  apply fo_bind; [apply fo_cp; apply cp_corep_ff; [apply CoreP_Pres; apply InvProofsFiles.Pres_new_model | apply ff_new_model]|]. intros c.
+  apply fo_bind; [apply fo_ro; ro_tac|]. intros rn.
+  apply fo_bind; [apply fo_ro; ro_tac|]. intros cx.
+  apply fo_bind; [apply fo_cp; apply cp_modify_files; intros n; split; reflexivity|]. intros _.
+  apply fo_bind; [apply fo_dup_files|]. intros filemap.
+  apply fo_bind; [apply fo_cp; apply cp_dup_children|]. intros _.
+  apply fo_bind; [apply fo_ro; ro_tac|]. intros w0.
+  apply fo_bind; [apply fo_ro; apply ro_dfs_ids|]. intros oids.
+  apply fo_bind; [apply fo_ro; apply ro_dfs_ids|]. intros cids.
+  apply fo_bind; [apply fo_cp; apply cp_dup_membership|]. intros _. apply fo_ro. ro_tac.
+Qed.
+
+(* AutosarModel::duplicate: FilesOwned is kept; every model that was there keeps its place and its invariant (the
+   membership of the COPY is not covered: pending) *)
+Theorem duplicate_partial m w r w' : Core w -> FilesInv T w -> FilesOwned w ->
+  m_duplicate T tab_el tab_en check_fn LATEST root_attrs m w = Val (r, w') ->
+  FilesOwned w' /\
+  firstn (List.length (w_models w)) (w_models w') = w_models w /\
+  forall x, In x (w_models w) -> FilesInvM T w' x.
+Proof.
+  intros C FI O H.
+  destruct (CopyProofsDup.duplicate_spec T tab_el tab_en check_fn LATEST root_attrs m w r w' (CopyProofsBridge.Core_Closed w C)) as (Old & _ & Ff & Fm & Hr); auto.
+  { intros x Hx. rewrite nth_opt_error in Hx.
+    assert (nth_error (roots w) (N.to_nat m) = Some (m_root x)) as Hk by (unfold roots; rewrite nth_error_map, Hx; reflexivity).
+    destruct (c_roots _ C _ _ Hk) as (rn & Hrn & _). eauto. }
+  split; [|split; auto].
+  - unfold m_duplicate in H. destruct (m_duplicate_body T LATEST root_attrs m w) as [[[c|e] w1]|s|] eqn:E; try discriminate H.
+    + injection H as _ <-. eapply fo_duplicate_body; eauto.
+    + destruct r as [c|e']; [discriminate|]. destruct Hr as (F & M). eapply owned_same; eauto.
+  - intros x Hx. eapply old_part_inv; eauto.
+Qed.
+
+End Dup.
